@@ -312,9 +312,9 @@ QB = {'DMAX': 14, 'LAG': 1, 'NS': [3], 'RATES': [1, 3], 'KEEPS': [False], 'L2': 
 # thorough: (i) delays as symbolic ticks 0..16 (traced, genuinely symbolic), third recording prompt and healthy;
 #           (ii) the enumerated tick set with 2-3 recordings, every third life-cycle kind, all recycle rates, keep-results
 TB = {'DMAX': 16, 'LAG': 1, 'NS': [3], 'RATES': [1, 3], 'KEEPS': [False], 'L2': [0], 'D2': [0], 'DELAYS': None}
-TWIDE = {'b.DELAYS': [0, 5, 8, 9, 12, 13, 16], 'b.NS': [3], 'b.RATES': [1, 3], 'b.KEEPS': [False], 'b.L2': [0, 3],
+TWIDE = {'b.DELAYS': [0, 5, 8, 9, 12, 13], 'b.NS': [3], 'b.RATES': [1, 2, 3], 'b.KEEPS': [False, True], 'b.L2': [0, 3],
          'b.D2': [0], 'b.LAG': 1}
-TWIDE13 = {'b.DELAYS': [0, 8, 13], 'b.NS': [3], 'b.RATES': [1, 2], 'b.L2': [0, 3], 'b.D2': [0], 'b.LAG': 1}
+TWIDE13 = {'b.DELAYS': [0, 5, 8, 13], 'b.NS': [3], 'b.RATES': [1, 2, 3], 'b.L2': [0, 2, 3], 'b.D2': [0], 'b.LAG': 1}
 CONDITIONS = [
     {'fn': 'attribution', 'nontrivial': 'worker-failure',
      'what': 'dedicated-process run over 2-3 recordings in the model world: labels, attached playbacks and verdicts; '
